@@ -19,6 +19,17 @@ Generator : (a) collections of 0-8 history files written into a scratch $XONSH_D
             JsonHistory.run_gc / `history gc` on a real directory (not only the pure selectors).
             (c) SQLite tables of 0-12 rows with distinct tsb inserted in arbitrary order from several
             sessions, limit N around the row count, all units, three ways of naming the database file.
+            (d) live family: the lock is REAL.  1-3 live sessions - JsonHistory objects of the worker opened the
+            way xonsh.shell.Shell opens them (locked=True, ts=[opening >= boot, None]), each at a generated point
+            of its life: just opened, appended below / at / over its buffer size (periodic flushes), flushed
+            explicitly (method and `history flush` alias), `history clear` - share the directory with closed
+            sessions (written files and objects really closed with flush(at_exit=True) under a clock set to their
+            closing time); then one GC (forced to 0 of every unit, unforced with a limit on the boundaries of the
+            closed collection, tuple / $XONSH_HISTORY_SIZE / `history gc`) runs from one of the live sessions or
+            from a fresh one.  A fixed family lays every life stage x every such GC out deterministically.
+            Oracle: no live session's file is deleted or rewritten, the closed ones go oldest-first per the
+            model below, and afterwards every live session appends, flushes and reads back all its commands
+            from memory and from its file.
 Oracle    : a model written from the property text.  Candidates = loadable files that are not
             locked-live, oldest first by closing (else opening) timestamp; kept = longest suffix that
             fits the limit; nothing is deleted when everything fits; unforced, nothing is deleted when
@@ -31,7 +42,10 @@ Oracle    : a model written from the property text.  Candidates = loadable files
 Known     : C14-F1 (0 files, forced), C14-F2 (SQLite 0 commands), C14-F3 (SQLite GC ignores the history's
             own file name) - narrow predicates is_f1_shape / is_f2_shape / is_f3_shape; exactly those
             outcomes are tolerated in the generated campaigns (counted in excluded_known) and exercised
-            by the replay tier.
+            by the replay tier.  Live family: C14-F4 (`history clear` strips the lock of the running session:
+            is_f4_shape) and C14-F5 (a session that ends with an empty buffer is never unlocked: is_f5_shape)
+            - the outcome is accepted only if it is exactly what the model gives when the cleared live session
+            is read as a closed one / the never-unlocked dead session as a live one.
 """
 
 from __future__ import annotations
@@ -59,8 +73,9 @@ RULE = ("a collection of history files (or SQLite rows) + a limit (n, unit) + fo
         "the units s / b drawn by Hypothesis with limits placed on the collection's own boundaries; "
         "non-trivial = the limit falls strictly inside the collection (something must go and something must "
         "stay), or something must go while a live-locked file that would be among the discarded if it were "
-        "unlocked, a stale-locked file or a corrupt member is present; SQLite: 0 < N < rows; "
-        "distinct = hash of (collection, resolved limit, force)")
+        "unlocked, a stale-locked file or a corrupt member is present; SQLite: 0 < N < rows; live family (real "
+        "JsonHistory sessions next to the GC): a live session that has flushed mid-session owns a file the GC "
+        "would discard if it were not locked; distinct = hash of (collection, resolved limit, force)")
 
 HANG_S = 30                  # a GC pass costs ~2 ms; 30 s means it will never return
 NOW = 1_700_000_000.0
@@ -89,8 +104,10 @@ def _alarm(signum, frame):
 class _Clock:
     """Stands in for the `time` module inside xonsh.history.json / xonsh.history.sqlite."""
 
+    now = NOW       # moved only while a real session of the live family is opened / closed in the past
+
     def time(self):
-        return NOW
+        return self.now
 
     def sleep(self, s):
         # a shorter sleep: return as soon as the GC thread the caller is polling for has finished
@@ -142,7 +159,7 @@ def _setup(scratch):
     threading.excepthook = hook
     signal.signal(signal.SIGALRM, _alarm)
     base = os.path.join(scratch, "c14-%d" % os.getpid())   # one data dir per worker process
-    _state.update(XSH=XSH, xhj=xhj, xhs=xhs, xlj=xlj, base=base,
+    _state.update(XSH=XSH, xhj=xhj, xhs=xhs, xlj=xlj, base=base, clock=clock,
                   data=os.path.join(base, "data"), hist=os.path.join(base, "data", "history_json"),
                   custom=os.path.join(base, "custom"), default_size=XSH.env.get("XONSH_HISTORY_SIZE"))
     return _state
@@ -850,7 +867,410 @@ def run_sqlite_case(case, tolerate=True, stats=None):
     return None, nontrivial, labels, key
 
 
+# ----------------------------------------------------------------------------------------
+# live family: REAL sessions (JsonHistory objects with their own lock protocol) next to a GC run
+
+
+def is_f4_shape(sess):
+    """C14-F4: a live session that has run `history clear`: JsonHistory.clear() rewrites the session file without
+    'locked' / 'ts', so from then on every collector takes the file of the running session for the oldest closed one."""
+    return sess["cleared"]
+
+
+def is_f5_shape(sess):
+    """C14-F5: a session that ended with an empty buffer (no command at all, k x buffersize commands, or
+    `history flush` last): flush(at_exit=True) returns before the flusher that would unlock the file and stamp its
+    closing time, so the file of the dead session stays locked (= live for every collector) until the next reboot."""
+    return sess["closed_empty"] and sess["t_open"] >= BOOT     # opened before boot: the reboot rule unlocks it
+
+
+def _live_cmd(sid, i, t):
+    return {"inp": "live-%s-%d\n" % (sid, i), "rtn": 0, "ts": [t + i, t + i + 0.5], "cwd": "/"}
+
+
+def _play_life(h, sess, ops, XSH):
+    """Run a generated piece of a session's life; every background flusher is joined (GC meets a quiescent dir)."""
+    for op in ops:
+        if op[0] == "append":
+            for _ in range(int(op[1])):
+                c = _live_cmd(sess["id"], sess["n"], sess["t_open"])
+                sess["n"] += 1
+                sess["expect"].append(c["inp"])
+                hf = h.append(c)
+                if hf is not None:
+                    hf.join(HANG_S)
+                    if hf.is_alive():
+                        raise _Timeout()
+                    sess["flushes"] += 1
+        elif op[0] == "flush":
+            had = len(h.buffer)
+            if len(op) > 1 and op[1] == "alias":
+                XSH.history = h
+                try:
+                    XSH.aliases["history"](["flush"])
+                finally:
+                    XSH.history = None
+            else:
+                hf = h.flush()
+                if hf is not None:
+                    hf.join(HANG_S)
+                    if hf.is_alive():
+                        raise _Timeout()
+            if had:
+                sess["flushes"] += 1
+        elif op[0] == "clear":
+            h.clear()
+            sess["expect"] = []
+            sess["cleared"] = True
+        else:
+            raise common.HarnessError("unknown life op %r" % (op,))
+
+
+def _disk_inps(path):
+    xlj = _state["xlj"]
+    with open(path, newline="\n", encoding="utf-8") as f:
+        d = xlj.LazyJSON(f).load()
+    return [c.get("inp") for c in d["cmds"]], d
+
+
+def run_live_case(case, tolerate=True, stats=None):
+    """1-3 live sessions (real JsonHistory objects at a generated point of their life), closed sessions (written
+    files and really closed objects) and one GC run from a live or a fresh session.  -> (Failure|None, nontrivial,
+    labels, key)"""
+    st = _state
+    XSH, xhj, clock = st["XSH"], st["xhj"], st["clock"]
+    env = XSH.env
+    info = _prepare_json({"files": case.get("closed", [])})
+    env["XONSH_DATA_DIR"] = st["data"]
+    env["XONSH_HISTORY_FILE"] = None
+    lim = case["limit"]
+    unit = lim["unit"]
+    force = bool(case["force"])
+    route = case.get("route", "size-tuple")
+    choice = case.get("spell", 0)
+    sessions = []          # every real session, closed ones first
+    objs = {}
+    box = {}
+
+    def open_session(spec, live):
+        t_open = NOW - spec["age"] - (0 if live else spec.get("dur", 10))
+        sess = {"id": spec["id"], "live": live, "t_open": t_open, "n": 0, "expect": [], "flushes": 0, "cleared": False,
+                "closed_empty": False, "bs": spec["bs"], "spec": spec}
+        clock.now = t_open
+        h = xhj.JsonHistory(sessionid=spec["id"], buffersize=spec["bs"], gc=False, ts=[t_open, None], locked=True,
+                            env={"C14": "1"})
+        sess["path"] = h.filename
+        objs[spec["id"]] = h
+        sessions.append(sess)
+        return sess, h
+
+    def build():
+        for spec in case.get("real_closed", []):
+            sess, h = open_session(spec, False)
+            _play_life(h, sess, spec["life"], XSH)
+            if not h.buffer:
+                if spec.get("end_empty"):
+                    sess["closed_empty"] = True
+                else:
+                    _play_life(h, sess, [["append", 1]], XSH)
+                    if not h.buffer:        # buffer size 1: the append has flushed already
+                        sess["closed_empty"] = True
+            clock.now = NOW - spec["age"]
+            h.flush(at_exit=True)           # what XSH.unload() / the atexit handler do
+            clock.now = NOW
+        for spec in case["live"]:
+            if spec["age"] > BOOT_AGE:
+                raise common.HarnessError("live session older than boot: %r" % (spec,))
+            sess, h = open_session(spec, True)
+            clock.now = NOW
+            _play_life(h, sess, spec["life"], XSH)
+        clock.now = NOW
+        r = case.get("runner", "fresh")
+        if r == "fresh":
+            box["runner"] = xhj.JsonHistory(sessionid="own", gc=False, ts=[NOW - 10, None], locked=True, env={"C14": "1"})
+            box["own_path"] = box["runner"].filename
+        else:
+            box["runner"] = objs[case["live"][int(r) % len(case["live"])]["id"]]
+
+    try:
+        exc, texc, _ = _call_guarded(build)
+    finally:
+        clock.now = NOW
+    if exc or texc:
+        f = Failure("session-exception", case, "building the sessions (open / append / flush / clear / close) failed: "
+                    "%s %s" % (exc, texc), bucket="live:session-exception")
+        return f, False, ["live:" + unit], ("live-broken", json.dumps(case, sort_keys=True))
+
+    # ---- facts before the GC
+    for sess in sessions:
+        ent = {"id": sess["id"], "path": sess["path"], "kind": "ok", "stale": False, "sess": sess}
+        try:
+            ent["size"] = ent["size_alt"] = os.path.getsize(sess["path"])
+            with open(sess["path"], "rb") as f:
+                sess["bytes"] = f.read()
+        except OSError as e:
+            return (Failure("session-file-missing", case, "session %s has no file before the GC: %s" % (sess["id"], e),
+                            bucket="live:session-file-missing"), False, ["live:" + unit], ("live-broken", sess["id"]))
+        h = objs[sess["id"]]
+        on_disk = len(sess["expect"]) - len(h.buffer) if sess["live"] else len(sess["expect"])
+        ent["ncmds"] = on_disk
+        if sess["live"]:
+            ent.update(lock="live", klass="live", key=sess["t_open"])
+        elif sess["closed_empty"] and sess["t_open"] < BOOT:
+            # never unlocked by its own exit, but opened before boot: the collector unlocks it (one byte longer)
+            # and sorts it by its opening time
+            ent.update(lock="stale", klass="cand", key=sess["t_open"], stale=True, size_alt=ent["size"] + 1)
+        else:
+            ent.update(lock="no", klass="cand", key=NOW - sess["spec"]["age"])
+        info.append(ent)
+    if "own_path" in box:
+        n = os.path.getsize(box["own_path"])
+        info.append({"id": "own", "path": box["own_path"], "kind": "ok", "lock": "live", "klass": "live", "ncmds": 0,
+                     "size": n, "size_alt": n, "key": NOW - 10, "stale": False})
+    keys = [e["key"] for e in info if e["klass"] == "cand"]
+    if len(set(keys)) != len(keys):
+        # the opening time of a session that was never unlocked coincides with another candidate's time stamp:
+        # ties have no defined oldest-first order (see assumptions)
+        if stats is not None:
+            stats.discards += 1
+        return None, False, ["live:discarded-timestamp-tie"], ("live-tie", json.dumps(case, sort_keys=True))
+    cands = sorted((e for e in info if e["klass"] == "cand"), key=lambda e: e["key"])
+    L = resolve_limit(lim, cands)
+    model = json_model(info, unit, L, force)
+    runner = box["runner"]
+
+    def go():
+        XSH.history = runner
+        if route == "size-tuple":
+            runner.run_gc(size=(L, unit), force=force)
+        elif route == "env-tuple":
+            env["XONSH_HISTORY_SIZE"] = (L, unit)
+            runner.run_gc(force=force)
+        elif route == "cli":
+            num, word, _ = spell(unit, L, choice, need_word=True)
+            XSH.aliases["history"](["gc", "--size", num, word] + (["--force"] if force else []))
+        else:
+            raise common.HarnessError("unknown route %r" % route)
+
+    try:
+        exc, texc, out = _call_guarded(go)
+    finally:
+        env["XONSH_HISTORY_SIZE"] = st["default_size"]
+        XSH.history = None
+
+    deleted = [e["id"] for e in info if not os.path.lexists(e["path"])]
+    decoys_gone = [name for where, name in DECOYS if not os.path.lexists(os.path.join(st[where], name))]
+    by_id = {e["id"]: e for e in info}
+    resolved = {"unit": unit, "L": L, "force": force, "route": route, "order_oldest_first": model["order"],
+                "deleted": deleted, "zone": model["zone"], "allowed_counts": sorted(model["allowed"]),
+                "live": [s["id"] for s in sessions if s["live"]], "gc_from": case.get("runner", "fresh")}
+
+    # ---- labels / non-triviality
+    live_s = [s for s in sessions if s["live"]]
+    hyp = [dict(e, klass="cand") if (e["klass"] == "live" and e["id"] != "own") else e for e in info]
+    hm = json_model(hyp, unit, L, True)
+    doomed = set(hm["order"][:hm["n_rm"]])
+    flushed_live = [s for s in live_s if s["flushes"] and not s["cleared"]]
+    live_matters = any(s["id"] in doomed for s in flushed_live)
+    nontrivial = live_matters
+    labels = ["live:" + unit, "live-zone:" + model["zone"], "live-route:" + route,
+              "live-force" if force else "live-unforced", "live-sessions:%d" % len(live_s),
+              "live-gc-from:" + ("fresh" if case.get("runner", "fresh") == "fresh" else "live")]
+    if flushed_live:
+        labels.append("live:flushed-mid-session")
+    if any(s["flushes"] and len(objs[s["id"]].buffer) for s in live_s):
+        labels.append("live:flushed-and-buffered")
+    if any(not s["n"] for s in live_s):
+        labels.append("live:just-opened")
+    if live_matters:
+        labels.append("live:flushed-file-would-be-discarded-if-unlocked")
+    if any(s["cleared"] for s in live_s):
+        labels.append("live:cleared")
+    if case.get("real_closed"):
+        labels.append("live:really-closed-sessions")
+    if 0 < model["n_rm"] < model["n"]:
+        labels.append("live:limit-strictly-inside")
+    key = ("live", json.dumps([case.get("closed"), case.get("real_closed"), case["live"], case.get("runner")],
+                              sort_keys=True), unit, L, force)
+
+    def fail(kind, detail, finding=None):
+        bucket = finding or ("live:" + (kind if kind in _UNIT_FREE_KINDS or kind.startswith("live-") else
+                                        "%s:%s" % (kind, unit)))
+        return (Failure(kind, case, "%s; resolved=%s" % (detail, json.dumps(common.jsonable(resolved))),
+                        finding=finding, bucket=bucket), nontrivial, labels, key)
+
+    if exc == "hang":
+        return fail("hang", "run_gc did not return within %d s" % HANG_S)
+    if exc is not None:
+        return fail("gc-exception", "run_gc raised %s" % exc)
+    if texc:
+        return fail("gc-crash", "the GC thread died with %s" % "; ".join(texc))
+    if decoys_gone:
+        return fail("decoy-deleted", "file(s) that are not history files deleted: %s" % decoys_gone)
+
+    def judge(as_cand=(), as_live=()):
+        """Compare with the model under one reading of the sessions' state: ids in `as_cand` are live sessions the
+        collector may take for closed ones (F4), ids in `as_live` dead sessions it may take for live ones (F5)."""
+        inf = []
+        for e in info:
+            if e["id"] in as_cand:
+                e = dict(e, klass="cand", key=0.0)
+            elif e["id"] in as_live:
+                e = dict(e, klass="live")
+            inf.append(e)
+        m = json_model(inf, unit, L, force)
+        byi = {e["id"]: e for e in inf}
+        bad_live = [i for i in deleted if byi[i]["klass"] == "live"]
+        if bad_live:
+            return ("live-deleted", "GC deleted the file of a live session (a JsonHistory object that is still in use, "
+                    "opened after boot): %s; its life before the GC: %s" % (
+                        bad_live, [(s["id"], s["spec"]["life"]) for s in sessions if s["id"] in bad_live]))
+        if set(deleted) != set(m["order"][:len(deleted)]):
+            return ("not-oldest-first", "deleted %s is not a prefix of the oldest-first order %s" % (deleted, m["order"]))
+        if len(deleted) not in m["allowed"]:
+            al = m["allowed"]
+            if al == {0}:
+                kind = "deleted-within-limit" if m["zone"] == "fits" else "refusal-ignored"
+            elif not deleted:
+                kind = "not-collected"
+            elif len(deleted) > max(al):
+                kind = "over-collected"
+            else:
+                kind = "under-collected"
+            return (kind, "deleted %d oldest candidate(s) %s; the model allows %s (zone %s, order %s)" % (
+                len(deleted), deleted, sorted(al), m["zone"], m["order"]))
+        return None
+
+    res = judge()
+    finding = None
+    if res is not None:
+        f4 = [x["id"] for x in live_s if is_f4_shape(x)]
+        f5 = [x["id"] for x in sessions if not x["live"] and is_f5_shape(x)]
+        alts = []
+        if f4:
+            alts.append(("C14-F4", {"as_cand": f4}))
+        if f5:
+            alts.append(("C14-F5", {"as_live": f5}))
+        if f4 and f5:
+            alts.append(("C14-F4", {"as_cand": f4, "as_live": f5}))
+        for fid, kw in alts:
+            if judge(**kw) is None:
+                finding = fid
+                break
+        if finding is None or not tolerate:
+            return fail(res[0], res[1], finding)
+        if stats is not None:
+            stats.excluded_known[finding] += 1
+        labels = labels + ["tolerated:" + finding]
+    # ---- survivors
+    xlj = st["xlj"]
+    for e in info:
+        if e["id"] in deleted:
+            continue
+        sess = e.get("sess")
+        if e["klass"] == "live" and sess is not None:
+            with open(e["path"], "rb") as f:
+                if f.read() != sess["bytes"]:
+                    return fail("live-modified", "the file of live session %s was rewritten by the GC" % e["id"])
+            continue
+        if e["kind"] == "zero" or e["klass"] == "corrupt" or e["id"] == "own":
+            continue
+        try:
+            lj = xlj.LazyJSON(e["path"], reopen=False)
+            try:
+                ncmds = len(lj["cmds"])
+            finally:
+                lj.close()
+        except Exception as ex:  # noqa: BLE001
+            return fail("survivor-damaged", "kept file %s no longer loads: %s: %s" % (e["id"], type(ex).__name__, ex))
+        if ncmds != e["ncmds"]:
+            return fail("survivor-damaged", "kept file %s has %d commands, had %d" % (e["id"], ncmds, e["ncmds"]))
+    # ---- the live sessions go on: append, flush, read back everything
+    after = case.get("after", 1)
+    for sess in live_s:
+        if sess["id"] in deleted:
+            continue            # tolerated known finding
+        h = objs[sess["id"]]
+        problem = []
+
+        def cont(h=h, sess=sess, problem=problem):
+            _play_life(h, sess, [["append", after], ["flush"]], XSH)
+            want = sess["expect"]
+            if len(h) != len(want):
+                problem.append("len(h) is %d, the session recorded %d commands since it was opened / cleared" % (
+                    len(h), len(want)))
+                return
+            got = [h.inps[i] for i in range(len(h))]
+            if got != want:
+                problem.append("h.inps yields %r, recorded %r" % (got[:8], want[:8]))
+                return
+            disk, d = _disk_inps(sess["path"])
+            if disk != want:
+                problem.append("the session file holds %r after flush, recorded %r" % (disk[:8], want[:8]))
+
+        exc, texc, _ = _call_guarded(cont)
+        if exc or texc or problem:
+            return fail("live-continuation", "after the GC live session %s (life %s) cannot go on: %s" % (
+                sess["id"], sess["spec"]["life"], problem[0] if problem else "%s %s" % (exc, texc)))
+    return None, nontrivial, labels, key
+
+
+def reduce_live(case, bucket, budget=120):
+    runs = [0]
+
+    def fails(c):
+        if runs[0] >= budget:
+            return False
+        runs[0] += 1
+        try:
+            f = run_live_case(c, tolerate=False)[0]
+        except common.HarnessError:
+            return False
+        return f is not None and f.bucket == bucket
+
+    cur = json.loads(json.dumps(case))
+    if not fails(cur):
+        return case
+    try:
+        f = run_live_case(cur, tolerate=False)[0]
+        L = json.loads(f.detail.split("resolved=", 1)[1])["L"]
+        c2 = dict(cur, limit={"unit": cur["limit"]["unit"], "anchor": ["abs", L]})
+        if fails(c2):
+            cur = c2
+    except Exception:  # noqa: BLE001
+        pass
+    for seq in ("closed", "real_closed", "live"):
+        i = len(cur.get(seq, [])) - 1
+        while i >= 0:
+            if seq == "live" and len(cur["live"]) == 1:
+                break
+            c2 = dict(cur, **{seq: cur[seq][:i] + cur[seq][i + 1:]})
+            if seq == "live" and c2.get("runner", "fresh") != "fresh":
+                c2["runner"] = 0
+            if fails(c2):
+                cur = c2
+            i -= 1
+    for k, v in (("route", "size-tuple"), ("runner", "fresh"), ("spell", 0), ("after", 1)):
+        if k in cur and cur[k] != v:
+            c2 = dict(cur, **{k: v})
+            if fails(c2):
+                cur = c2
+    for seq in ("real_closed", "live"):
+        for i in range(len(cur.get(seq, []))):
+            life = cur[seq][i]["life"]
+            j = len(life) - 1
+            while j >= 0:
+                life2 = life[:j] + life[j + 1:]
+                c2 = dict(cur, **{seq: cur[seq][:i] + [dict(cur[seq][i], life=life2)] + cur[seq][i + 1:]})
+                if fails(c2):
+                    cur, life = c2, life2
+                j -= 1
+    return cur
+
+
 def check_case(case, tolerate=True, stats=None):
+    if case.get("backend") == "json-live":
+        return run_live_case(case, tolerate, stats)
     if case.get("backend") == "sqlite":
         return run_sqlite_case(case, tolerate, stats)
     return run_json_case(case, tolerate, stats)
@@ -861,6 +1281,8 @@ def check_case(case, tolerate=True, stats=None):
 
 
 def reduce_case(case, bucket, budget=250):
+    if case.get("backend") == "json-live":
+        return reduce_live(case, bucket)
     runs = [0]
 
     def fails(c):
@@ -1134,6 +1556,135 @@ def sqlite_case_strategy():
     return cases()
 
 
+
+_LIVE_BS = [1, 2, 3, 3, 4, 100]
+
+
+def _life_ops(x, bs, allow_clear):
+    """Decode a generated integer into 0-4 life operations placed relative to the buffer size."""
+    n = x % 5
+    x //= 5
+    ops = []
+    for _ in range(n):
+        k = x % 12
+        x //= 12
+        if k < 7:
+            ops.append(["append", max(1, [1, bs - 1, bs, bs + 1, 2 * bs + 1, 2, bs][k] if bs < 50 else [1, 2, 3, 5, 7, 2, 1][k])])
+        elif k < 9:
+            ops.append(["flush"])
+        elif k < 10:
+            ops.append(["flush", "alias"])
+        elif allow_clear:
+            ops.append(["clear"])
+            allow_clear = False
+        else:
+            ops.append(["flush", "alias"])
+    return ops
+
+
+def live_case_strategy():
+    from hypothesis import strategies as hs
+
+    s_nc = hs.integers(0, 4)
+    s_nr = hs.integers(0, 2)
+    s_nl = hs.integers(1, 3)
+    s_ages = hs.lists(hs.integers(0, len(_AGE_POOL) - 1), min_size=9, max_size=9, unique=True)
+    s_x = hs.integers(0, 2 ** 30 - 1)
+    s_cp = hs.sampled_from(_NCMDS_PAD)
+    s_unit = hs.sampled_from(UNITS)
+    s_akind = hs.sampled_from(["abs0"] * 4 + ["suffix"] * 3 + ["prefix"] * 2 + ["total"] * 4 + ["abs"] * 2)
+    s_abs = hs.sampled_from([0, 1, 2, 3, 5, 8, 13, 60, 4096, 10 ** 6, 10 ** 12, -1])
+    s_d = {True: hs.sampled_from([0, 0, -1, 1, -0.5, 0.5]), False: hs.sampled_from([0, 0, -1, 1])}
+    s_k = hs.integers(0, 7)
+
+    @hs.composite
+    def cases(draw):
+        nc, nr, nl = draw(s_nc), draw(s_nr), draw(s_nl)
+        ages = [_AGE_POOL[i] for i in draw(s_ages)]
+        used = set()
+
+        def age(live):
+            a = ages.pop()
+            if live and a > BOOT_AGE:
+                a = a % BOOT_AGE + 1
+            while a in used:
+                a += 1
+            used.add(a)
+            return a
+
+        closed = []
+        for i in range(nc):
+            ncmds, pad = draw(s_cp)
+            closed.append({"id": "w%d" % i, "name": "xonsh-%s%d.json" % (_NAMES[(i * 5) % 9], i), "where": "hist",
+                           "kind": "ok", "lock": "no", "age": age(False), "ncmds": ncmds, "pad": pad,
+                           "dur": _DURS[(ncmds + pad) % len(_DURS)]})
+        x = draw(s_x)
+        clear_at = x % 8            # which session (if any) may run `history clear`: most cases none
+        x //= 8
+        real_closed = []
+        for i in range(nr):
+            y = draw(s_x)
+            bs = _LIVE_BS[y % len(_LIVE_BS)]
+            y //= len(_LIVE_BS)
+            real_closed.append({"id": "r%d" % i, "age": age(False), "dur": _DURS[y % len(_DURS)], "bs": bs,
+                                "life": _life_ops(y // len(_DURS), bs, False),
+                                "end_empty": bool(i == 0 and (y >> 20) % 6 == 0)})
+        live = []
+        for i in range(nl):
+            y = draw(s_x)
+            bs = _LIVE_BS[y % len(_LIVE_BS)]
+            y //= len(_LIVE_BS)
+            live.append({"id": "v%d" % i, "age": age(True), "bs": bs, "life": _life_ops(y, bs, clear_at == i + 4)})
+        unit = draw(s_unit)
+        akind = draw(s_akind)
+        if akind == "abs0":
+            anchor = ["abs", 0]
+        elif akind == "abs":
+            anchor = ["abs", draw(s_abs)]
+        elif akind == "total":
+            anchor = ["total", 0, draw(s_d[unit == "s"])]
+        else:
+            anchor = [akind, draw(s_k), draw(s_d[unit == "s"])]
+        force = bool(x & 1) or akind == "abs0"
+        x >>= 1
+        route = ("size-tuple", "env-tuple", "cli", "size-tuple")[x % 4]
+        x //= 4
+        runner = "fresh" if x % 2 else (x // 2) % nl
+        x //= 8
+        return {"backend": "json-live", "closed": closed, "real_closed": real_closed, "live": live, "runner": runner,
+                "limit": {"unit": unit, "anchor": anchor}, "force": force, "route": route, "spell": x % 64,
+                "after": 1 + (x // 64) % 3}
+
+    return cases()
+
+
+def fixed_live_family():
+    """A small family laid out deterministically: every point of a live session's life x the collections that would
+    take its file first if it were not locked x GC from a fresh / from the live session itself."""
+    lives = [("just-opened", []), ("below", [["append", 2]]), ("at", [["append", 3]]), ("over", [["append", 4]]),
+             ("twice-over", [["append", 7]]), ("explicit", [["append", 1], ["flush"]]),
+             ("explicit-alias", [["append", 2], ["flush", "alias"]]), ("at+explicit", [["append", 4], ["flush"]])]
+    gcs = [("files", ["abs", 0], True), ("commands", ["abs", 0], True), ("b", ["abs", 0], True), ("s", ["abs", 0], True),
+           ("commands", ["total", 0, 0], False), ("files", ["total", 0, 0], False), ("b", ["total", 0, 0], False),
+           ("commands", ["suffix", 1, 0], False)]
+    j = 0
+    for name, life in lives:
+        for unit, anchor, force in gcs:
+            for runner in ("fresh", 0):
+                for bs in (3, 1):
+                    if bs == 1 and name not in ("below", "explicit"):
+                        continue
+                    j += 1
+                    closed = [{"id": "w%d" % i, "name": "xonsh-%s%d.json" % (_NAMES[i], i), "where": "hist", "kind": "ok",
+                               "lock": "no", "age": 3000 - 1000 * i, "ncmds": 4, "pad": 0, "dur": 10} for i in range(3)]
+                    yield {"backend": "json-live", "closed": closed,
+                           "real_closed": [{"id": "r0", "age": 500, "dur": 10, "bs": 3, "life": [["append", 4]]}],
+                           "live": [{"id": "v0", "age": 5000, "bs": bs, "life": life},
+                                    {"id": "v1", "age": 100, "bs": 100, "life": [["append", 2]]}],
+                           "runner": runner, "limit": {"unit": unit, "anchor": anchor}, "force": force,
+                           "route": ("size-tuple", "env-tuple", "cli")[j % 3], "spell": j, "after": 1 + j % 2}
+
+
 def worker_random(arg):
     seed, n, which, scratch = arg
     _setup(scratch)
@@ -1150,7 +1701,12 @@ def worker_random(arg):
             if f.kind == "hang":
                 stop.append(1)
 
-    strategy = sqlite_case_strategy() if which == "sqlite" else json_case_strategy()
+    if which == "live+fixed":
+        for case in fixed_live_family():
+            body(case)
+            st.hist["live-fixed-family"] += 1
+    strategy = (sqlite_case_strategy() if which == "sqlite" else live_case_strategy() if which.startswith("live")
+                else json_case_strategy())
     common.run_given(strategy, body, seed, n)
     return _finish_worker(st)
 
@@ -1172,7 +1728,18 @@ def _replay_case(case):
 
 def main(run):
     _setup(run.scratch)
-    common.replay_tier(run, _replay_case)
+    registered = {e.get("id") for e in run.known}
+
+    def replay_case(case):
+        fid = case.get("finding")
+        if fid and fid not in registered:
+            # the replay of a finding that is proposed but not (yet) listed in known_findings.json: its shape is
+            # tolerated in the generated families by its narrow predicate; say so instead of judging it
+            run.stats.notes.append("replay of %s skipped: the finding is not listed in %s" % (fid, common.KNOWN_FILE))
+            return None
+        return _replay_case(case)
+
+    common.replay_tier(run, replay_case)
     nw = 8 if run.tier == "quick" else 16          # shards / seeds (fixed, so results do not depend on procs)
     procs = max(1, min(16, int(os.environ.get("VERIF_PROCS") or 16)))
     stride = _dev_stride()
@@ -1181,6 +1748,9 @@ def main(run):
     tasks = [("exhaustive", (i, nw, run.tier, run.scratch)) for i in range(nw)]
     tasks += [("random", (common.worker_seed(run.seed, w), per, "json", run.scratch)) for w in range(nw)]
     tasks += [("random", (common.worker_seed(run.seed, 200 + w), pers, "sqlite", run.scratch)) for w in range(nw)]
+    perl = run.n(250, 6000) // stride
+    tasks += [("random", (common.worker_seed(run.seed, 400 + w), perl, "live+fixed" if w == 0 else "live", run.scratch))
+              for w in range(nw // 2)]
     common.pool_map(run, __name__, "worker_any", tasks, procs=procs)
     mf, counts, limits = small_scope(run.tier)
     if stride == 1:
@@ -1195,8 +1765,20 @@ def main(run):
               ("zone:must-refuse", 0.03), ("zone:must-run", 0.01), ("zone:forced", 0.05), ("live-would-be-discarded", 0.03)]
     total = max(1, sum(v for k, v in h.items() if k.startswith(("json:", "exhaustive:"))))
     low = [lab for lab, fl in floors if h.get(lab, 0) / total < fl]
+    lt = max(1, sum(v for k, v in h.items() if k.startswith("live-gc-from:")))
+    lfloors = [("live:flushed-mid-session", 0.4), ("live:flushed-file-would-be-discarded-if-unlocked", 0.15),
+               ("live-gc-from:live", 0.2), ("live-gc-from:fresh", 0.2), ("live:just-opened", 0.05),
+               ("live:really-closed-sessions", 0.2), ("live-force", 0.2), ("live-unforced", 0.1)]
+    low += [lab for lab, fl in lfloors if h.get(lab, 0) / lt < fl]
+    if h.get("live-fixed-family", 0) < 100:
+        low.append("live-fixed-family")
     if low:
         raise common.HarnessError("generator incomplete: classes below their floor: %s" % low)
+    run.extra["live_session_family"] = {
+        "cases": lt, "fixed family": h.get("live-fixed-family", 0),
+        "with a live session that flushed mid-session": h.get("live:flushed-mid-session", 0),
+        "where that file would be among the discarded if it were unlocked": h.get(
+            "live:flushed-file-would-be-discarded-if-unlocked", 0)}
     run.assumptions += [
         "the clock is owned by the harness: xonsh.history.json.time / xonsh.history.sqlite.time are replaced by an "
         "object with time() == 1_700_000_000.0 (sleep shortened), uptime.boottime() returns now - 1e6 s",
@@ -1209,6 +1791,12 @@ def main(run):
         "unit b: a stale-locked file may be counted with its size before or after it is unlocked (1 byte apart)",
         "negative limits: unforced GC must delete nothing; forced (JSON) only the safety invariants are demanded; "
         "SQLite may keep everything or nothing",
+        "live family: the live sessions are JsonHistory objects of the worker process (opened with locked=True, "
+        "ts=[opening time >= boot, None], as xonsh.shell.Shell opens them) that really appended / flushed / cleared; "
+        "every background flusher is joined before the GC runs (the directory is quiescent); closed sessions are "
+        "written files and objects closed with flush(at_exit=True) under a clock set to their closing time; at most one "
+        "live session per case runs `history clear` (C14-F4) and at most one closed session ends with an empty buffer "
+        "(C14-F5); `history erasedups` / `history delete` from a live session are not generated",
         "corrupt members are unreadable before their 'locked' flag (garbage, truncated in header/index/cmds, plain "
         "JSON, directory, dangling link); files truncated after the flag are not generated",
         "locked files always carry ts; a file without ts (as written by `history clear`) is unlocked and sorts oldest",
